@@ -146,3 +146,14 @@ Fixpoint crlf_only (s : list N) : bool :=
   | [] => true
   | b :: r => (if (b =? 13)%N then match r with 10%N :: _ => true | _ => false end else true) && crlf_only r
   end.
+
+(* number of line terminators that END within the first n bytes of c, in the sense of [locate] (LF; CR LF once,
+   at its LF; a CR that is not followed by LF in c): spec_line c o = 1 + terms_before c o *)
+Fixpoint terms_before (c : list N) (n : nat) : Z :=
+  match n, c with
+  | S n', b :: r =>
+      ((if (b =? 10)%N then 1
+        else if (b =? 13)%N then match r with 10%N :: _ => 0 | _ => 1 end
+        else 0) + terms_before r n')%Z
+  | _, _ => 0%Z
+  end.
